@@ -15,8 +15,8 @@ ASSUMPTIONS = [
     'evaluation with a substituted symbolic value uses product semantics (value of a term = coefficient times the product of its variables\' values)',
     'normalize on an all-zero raw dict divides by zero, as it does on plain numbers: outside the property',
 ]
-OUTSIDE = ['more than 3 labels', 'float rounding', 'all-zero dict passed to normalize']
-BOUNDS = {'quick': {'labels': 3, 'universe': '4-6 monomials', 'types': '10 model types + dict'}, 'thorough': {'universe': 'dense'}}
+OUTSIDE = ['more than 3 labels (4 in the thorough tier)', 'float rounding', 'all-zero dict passed to normalize']
+BOUNDS = {'quick': {'labels': 3, 'fixed / outside-node sets': '1, 2 or all 3 labels', 'universe': '4-6 monomials', 'types': '10 model types + dict'}, 'thorough': {'universe': 'dense'}}
 
 
 def gval(model, asg):
